@@ -35,6 +35,9 @@ Inductive stmt :=
 | SConcat (r : nat) (vs : list nat) (* r := slices.Concat(vs...) *)
 | SClone (r v : nat)                (* r := bytes.Clone(v) *)
 | SStore (x v : nat)                (* x.f = v : the object x now also reaches v *)
+| SStoreObj (x v : nat)             (* x.f = v with v itself an OBJECT register (a different one): as SStore, and v is
+                                       dead afterwards - the object is from now on spoken for by x (the analysis kills
+                                       v, so nothing can be done through v that x does not see) *)
 | SBind (r v : nat)                 (* an object variable of class r is bound to the object in the TEMPORARY v: r may
                                        from now on also denote it; v is dead afterwards (the analysis kills it) *)
 | SEscape (v : nat)                 (* v leaves the function: returned, stored in a shared object or handed to a
@@ -100,6 +103,10 @@ Inductive astep : pstate -> stmt -> pstate -> Prop :=
     astep (h, rs, lg) (SStore x v) (h, rs, lg)
 | A_store_take h rs lg x v s : nth_error rs v = Some s ->
     astep (h, rs, lg) (SStore x v) (h, set_nth x s rs, lg)
+| A_storeobj_keep h rs lg x v :
+    astep (h, rs, lg) (SStoreObj x v) (h, rs, lg)
+| A_storeobj_take h rs lg x v s : nth_error rs v = Some s ->
+    astep (h, rs, lg) (SStoreObj x v) (h, set_nth x s rs, lg)
 | A_bind_keep h rs lg r v :
     astep (h, rs, lg) (SBind r v) (h, rs, lg)
 | A_bind_take h rs lg r v s : nth_error rs v = Some s ->
@@ -148,6 +155,17 @@ Definition top (own : list fl) : list fl := map (fun _ => ftop) own.
 Definition unpriv (v : nat) (own : list fl) : list fl :=
   set_nth v (mkfl (fw (nth v own fbot)) (fk (nth v own fbot)) false) own.
 
+(* x.f = v: a store into a private object only lowers its flags; a store into any other object lets v escape
+   (v must be keepable) and, if v is an object, ends its privacy *)
+Definition store_flags (own : list fl) (x v : nat) : option (list fl) :=
+  let o u := nth u own fbot in
+  if fp (o x) then Some (set_nth x (mkfl (fw (o x) && fw (o v)) (fk (o x) && fk (o v)) true) own)
+  else if fk (o v) then
+    let own1 := unpriv v own in
+    let o1 u := nth u own1 fbot in
+    Some (set_nth x (mkfl (fw (o1 x) && fw (o1 v)) (fk (o1 x)) false) own1)
+  else None.
+
 (* the fixpoint of a loop: lower the flags at the loop head until one more iteration cannot lower them *)
 Fixpoint loop_fix (f : list fl -> option (list fl * list fl)) (fuel : nat) (hd : list fl)
   : option (list fl) :=
@@ -178,14 +196,12 @@ Fixpoint own_stmt (s : stmt) (own : list fl) : option (list fl * list fl) :=
   | SCopy d _ => if fw (o d) then ok own else None
   | SConcat r _ => ok (set_nth r ftop own)
   | SClone r _ => ok (set_nth r ftop own)
-  | SStore x v =>
-      if fp (o x) then ok (set_nth x (mkfl (fw (o x) && fw (o v)) (fk (o x) && fk (o v)) true) own)
-      else if fk (o v) then
-        (* x is shared: v escapes into it - and if v is an object it is no longer private *)
-        let own1 := unpriv v own in
-        let o1 u := nth u own1 fbot in
-        ok (set_nth x (mkfl (fw (o1 x) && fw (o1 v)) (fk (o1 x)) false) own1)
-      else None
+  | SStore x v => match store_flags own x v with Some own' => ok own' | None => None end
+  | SStoreObj x v =>
+      match store_flags own x v with
+      | Some own' => if Nat.eqb x v then ok own' else ok (set_nth v fbot own')
+      | None => None
+      end
   | SBind r v =>
       if Nat.eqb r v then ok own
       else ok (set_nth v fbot (set_nth r (fand (o r) (o v)) own))
@@ -234,13 +250,34 @@ Fixpoint mem (n : nat) (l : list nat) : bool :=
 Fixpoint obj_wf (objs : list nat) (s : stmt) : bool :=
   match s with
   | SSub r _ | SAlias r _ | SAppend r _ | SConcat r _ | SClone r _ | SPhi r _ => negb (mem r objs)
-  | SStore x _ => mem x objs
+  | SStore x v => mem x objs && negb (mem v objs)
+  | SStoreObj x v => mem x objs && mem v objs
   | SBind r v => mem r objs && mem v objs
   | SSeq a b | SIf a b => obj_wf objs a && obj_wf objs b
   | SLoop b => obj_wf objs b
   | SCall _ _ eff => obj_wf objs eff
   | _ => true
   end.
+
+(* the register of a may-alias class of local objects is allocated ONCE, by an SMake in the entry prefix of the
+   body; nowhere else may it be the target of SMake (which would reset flags that were lowered) *)
+Fixpoint makes_none (cls : list nat) (s : stmt) : bool :=
+  match s with
+  | SMake r => negb (mem r cls)
+  | SSeq a b | SIf a b => makes_none cls a && makes_none cls b
+  | SLoop b => makes_none cls b
+  | SCall _ _ eff => makes_none cls eff
+  | _ => true
+  end.
+
+Fixpoint after_entry (s : stmt) : stmt :=
+  match s with
+  | SSeq (SMake _) b => after_entry b
+  | SMake _ => SSkip
+  | _ => s
+  end.
+
+Definition classes_made_once (cls : list nat) (s : stmt) : bool := makes_none cls (after_entry s).
 
 (* can control fall out of the end of s? *)
 Fixpoint falls (s : stmt) : bool :=
@@ -308,7 +345,7 @@ Fixpoint calls_ok (contract : nat -> list bool * list bool) (s : stmt) : bool :=
 (* can the analysis fail on this body at all? *)
 Fixpoint can_fail (s : stmt) : bool :=
   match s with
-  | SSet _ | SWrite _ | SAppend _ _ | SCopy _ _ | SStore _ _ | SEscape _ => true
+  | SSet _ | SWrite _ | SAppend _ _ | SCopy _ _ | SStore _ _ | SStoreObj _ _ | SEscape _ => true
   | SSeq a b | SIf a b => can_fail a || can_fail b
   | SLoop b | SCall _ _ b => can_fail b
   | _ => false
